@@ -145,6 +145,10 @@ func errClass(err error) string {
 		return "err emptyLeafList"
 	case strings.Contains(m, "Unsupported type"):
 		return "err unsupportedType"
+	case strings.Contains(m, "decimal64 precision"):
+		return "err decimalPrecision"
+	case strings.Contains(m, "NaN is not supported"):
+		return "err floatNaN"
 	}
 	return "err other:" + strings.ReplaceAll(m, " ", "_")
 }
